@@ -200,8 +200,10 @@ def run(ctx):
     ctx.run_driver(drv, ['stress', sout], timeout=300)
     st = vf.read_json(sout)
     sfail = st.get('straddling_failures') or []
-    if any('not a verdict' in x for x in sfail):
+    if any('not a verdict' in x for x in sfail) and not ctx.violations:
+        # (a watcher that does not reload at all has its verdict from the histories above; only without one is this run inconclusive)
         raise vf.Inconclusive('straddling handshakes: %s' % sfail[:2])
+    sfail = [x for x in sfail if 'not a verdict' not in x]
     if sfail:
         ctx.violation({'check': 'C14', 'kind': 'handshake_across_reload_fails'}, 'a handshake that was in progress while the pair was rotated and reloaded: %s' % sfail[0], st)
     if st['handshakes_with_mismatching_key'] or st['handshakes_other']:
